@@ -19,7 +19,9 @@ import (
 // only, no accounts (so every contract lookup finds nothing).
 type verifEvmAccounts struct{ evmtypes.AccountKeeper }
 
-func (verifEvmAccounts) GetModuleAddress(name string) sdk.AccAddress { return models.ModuleAddress(name) }
+func (verifEvmAccounts) GetModuleAddress(name string) sdk.AccAddress {
+	return models.ModuleAddress(name)
+}
 func (verifEvmAccounts) GetAccount(ctx context.Context, a sdk.AccAddress) sdk.AccountI { return nil }
 
 // VerifC16CallContract: MsgCallContract (governance calling a contract as the evm module) is
